@@ -224,6 +224,90 @@ fn pool_blocking(iters: u64) -> Result<String, String> {
     Ok(format!("{} lock/unlock pairs", 8 * iters))
 }
 
+/// One release racing one `try_lock` per round (the window between a failed try and its clean-up), with an
+/// exact check of the pool's reporting after every round. The two threads meet at spin barriers; the offset
+/// between release and try is steered so that about half of the tries see the key locked.
+fn pool_try_race(rounds: u64) -> Result<String, String> {
+    let pool: Arc<LockPool<u64>> = Arc::new(LockPool::new());
+    // a_phase = 2r+1: the holder has locked the key of round r; 2r+2: it has released it
+    let a_phase = Arc::new(AtomicU64::new(0));
+    // b_phase = r+1: the prober has finished round r (its check included)
+    let b_phase = Arc::new(AtomicU64::new(0));
+    let stop = Arc::new(AtomicBool::new(false));
+    let holder = {
+        let (pool, a_phase, b_phase, stop) = (pool.clone(), a_phase.clone(), b_phase.clone(), stop.clone());
+        std::thread::spawn(move || {
+            let mut r = 0u64;
+            while !stop.load(Ordering::SeqCst) {
+                let g = pool.blocking_lock(r % KEYS);
+                a_phase.store(2 * r + 1, Ordering::SeqCst);
+                for _ in 0..30 {
+                    std::hint::spin_loop();
+                }
+                drop(g);
+                a_phase.store(2 * r + 2, Ordering::SeqCst);
+                let mut spins = 0u32;
+                while b_phase.load(Ordering::SeqCst) < r + 1 && !stop.load(Ordering::SeqCst) {
+                    spins += 1;
+                    if spins % 256 == 0 { std::thread::yield_now() } else { std::hint::spin_loop() }
+                }
+                r += 1;
+            }
+        })
+    };
+    let mut delay: u64 = 30;
+    let (mut saw_locked, mut saw_free) = (0u64, 0u64);
+    let mut result = Ok(());
+    let started = std::time::Instant::now();
+    let mut done = 0u64;
+    for r in 0..rounds {
+        // time box: on a machine with a single free core the spin barriers are slow, not wrong
+        if r % 1024 == 0 && started.elapsed() > Duration::from_secs(15) {
+            break;
+        }
+        done = r + 1;
+        let mut spins = 0u32;
+        while a_phase.load(Ordering::SeqCst) < 2 * r + 1 {
+            spins += 1;
+            if spins % 256 == 0 { std::thread::yield_now() } else { std::hint::spin_loop() }
+        }
+        for _ in 0..delay {
+            std::hint::spin_loop();
+        }
+        match pool.try_lock(r % KEYS) {
+            Some(g) => {
+                saw_free += 1;
+                drop(g);
+                delay = delay.saturating_sub(1);
+            }
+            None => {
+                saw_locked += 1;
+                delay = (delay + 1).min(2000);
+            }
+        }
+        let mut spins = 0u32;
+        while a_phase.load(Ordering::SeqCst) < 2 * r + 2 {
+            spins += 1;
+            if spins % 256 == 0 { std::thread::yield_now() } else { std::hint::spin_loop() }
+        }
+        // both calls of this round have returned and the holder waits for us: nothing is locked, nothing is in flight
+        let (n, keys) = (pool.num_locked(), pool.locked_keys());
+        if n != 0 || !keys.is_empty() {
+            result = Err(format!(
+                "round {}: num_locked() = {}, locked_keys() = {:?} although no guard and no pending call exists (a failed try_lock raced with the release of key {})",
+                r, n, keys, r % KEYS
+            ));
+            break;
+        }
+        b_phase.store(r + 1, Ordering::SeqCst);
+    }
+    stop.store(true, Ordering::SeqCst);
+    b_phase.store(u64::MAX, Ordering::SeqCst);
+    holder.join().map_err(|_| "holder panicked".to_string())?;
+    result?;
+    Ok(format!("{} rounds, try saw the key locked {} times and free {} times", done, saw_locked, saw_free))
+}
+
 fn wakeup() -> Result<String, String> {
     let map: Arc<LockableHashMap<u64, u64>> = Arc::new(LockableHashMap::new());
     for round in 0..20 {
@@ -255,6 +339,7 @@ fn main() {
     with_watchdog("hashmap-blocking", 60, move || hashmap_blocking(iters));
     with_watchdog("lru-mixed", 60, move || lru_mixed(iters));
     with_watchdog("pool-blocking", 60, move || pool_blocking(iters));
+    with_watchdog("pool-try-race", 120, move || pool_try_race(iters * 250));
     with_watchdog("wakeup", 120, wakeup);
     println!("SMOKE OK");
 }
